@@ -207,7 +207,9 @@ def conc(world, seed, params):
     run = C.ConcRun(world, seed, params['focus'], knobs=knobs,
                     n_batch=params.get('n_batch'),
                     n_schedules=params.get('n_schedules', 1),
-                    enumerate_targeted=params.get('enumerate', False))
+                    enumerate_targeted=params.get('enumerate', False),
+                    enumerate_pairs=(params.get('enumerate2', 0) > 0 and
+                                     rng.random() < params['enumerate2']))
     findings = run.run()
     out = {'findings': [], 'requests': run.stats['requests'],
            'probes': run.stats['probes'], 'signatures': [], 'states': []}
